@@ -619,59 +619,25 @@ class Lemmas:
     # ---- L7: the first two bytes of an accepted message decode as a MessageType
     def prem_L7(self):
         msgs = []
-        from dtable import instrumented_body
-        b, ups = instrumented_body(self.prog, FROM_BYTES)
-        og = Origins(self.prog, b)
-        # (a) Message{data: X}: X is the slice handed to MessageHeader::from_bytes, whose Continue arm dominates the aggregate
-        sites = [s for s in e1.construct_sites(self.prog, MSG) if s["body"] == b.key]
-        hdr_calls = [(bi, t) for bi, t in b.calls() if og.callee_name(t) == HDR_FROM_BYTES]
-        if len(hdr_calls) != 1 or not sites:
-            msgs.append("from_bytes: expected one MessageHeader::from_bytes call and an aggregate")
-        else:
-            hb, ht = hdr_calls[0]
-            harg = strip(og.operand(ht["args"][0]))
-            for s in sites:
-                x = strip(og.operand(s["stmt"]["rv"]["ops"][0]))
-                if repr(x) != repr(harg):
-                    msgs.append("Message.data (%r) is not the slice the header decoder validated (%r)" % (x, harg))
-                if not b.dominates(hb, s["bb"]):
-                    msgs.append("the header decode does not dominate the construction")
-                # the `?` on the header result: construction must be reachable only through the Continue arm
-                if not _ok_arm_dominates(self.prog, b, og, hb, s["bb"]):
-                    msgs.append("the construction is not dominated by the Ok arm of MessageHeader::from_bytes")
-        # (b) MessageHeader::from_bytes returns Ok only after MessageType::from_bytes(data) on the same slice returned Ok
-        hbdy = self.prog.bodies[HDR_FROM_BYTES]
-        hog = Origins(self.prog, hbdy)
-        mt = [(bi, t) for bi, t in hbdy.calls() if hog.callee_name(t) == MT_FROM_BYTES]
-        if len(mt) != 1 or repr(strip(hog.operand(mt[0][1]["args"][0]))) != "param(1)":
-            msgs.append("MessageHeader::from_bytes does not decode the type from its own argument")
-        else:
-            oks = [(bi, si) for bi, si, s in hbdy.iter_stmts() if s["k"] == "assign" and s["rv"]["k"] == "aggregate" and s["rv"].get("adt") == "std::result::Result" and s["rv"].get("vname") == "Ok"]
-            for bi, si in oks:
-                if not _ok_arm_dominates(self.prog, hbdy, hog, mt[0][0], bi):
-                    msgs.append("MessageHeader::from_bytes can return Ok without the type decoder's Ok")
-        # (c) MessageType::from_bytes looks only at the length and the first two bytes (read_u16 of its argument)
-        mb = self.prog.bodies[MT_FROM_BYTES]
-        mog = Origins(self.prog, mb)
-        for bi, t in mb.calls():
-            name = mog.callee_name(t)
-            uses = [i for i, a in enumerate(t["args"]) if "param(1)" in repr(mog.operand(a))]
-            if uses and not re.search(r"::len$|ByteOrder>::read_u16$|fmt|tracing", name):
-                msgs.append("MessageType::from_bytes passes its argument to %s" % name)
-        # (d) get_type decodes &self.data[..2]
-        gb = self.prog.bodies[GET_TYPE]
-        gog = Origins(self.prog, gb)
-        okd = False
-        for bi, t in gb.calls():
-            if re.search(r"Index<std::ops::RangeTo<usize>> for \[u8\]>::index$", gog.callee_name(t)):
-                rng = strip(gog.operand(t["args"][1]))
-                base = repr(strip(gog.operand(t["args"][0])))
-                if rng.k == "agg" and const_int(rng.a[1][0]) == 2 and "data" in base:
-                    okd = True
-        if not okd:
-            msgs.append("get_type does not decode self.data[..2]")
-        return (not msgs), ("; ".join(msgs) if msgs else "Message.data is the slice whose header decode (incl. MessageType::from_bytes on bytes 0..2) returned Ok; get_type re-decodes data[..2]")
-
+        # (a) what the header decoder accepts (>= 20 bytes, top two bits of byte 0 clear), the getters reading the same bytes
+        ok, bad = sub_check(self.prog, "c17", rules={"header-acceptance", "offset-agreement", "header-delegation"})
+        if not ok:
+            msgs.append("header acceptance / delegation (C17) fails: %s" % bad)
+        # (b) the message constructed is the buffer the header decoder accepted
+        ok, bad = sub_check(self.prog, "c02", rules={"length-agreement"})
+        if not ok:
+            msgs.append("C02 length agreement (Message.data is the whole accepted buffer) fails: %s" % bad)
+        # (c) the type decoder refuses only what the header decoder refuses too
+        from rules import walk_e2 as W
+        ok, d = W.type_decoder_refusals(self.prog)
+        if not ok:
+            msgs.append("MessageType::from_bytes: %s" % d)
+        sites = e1.construct_sites(self.prog, MSG)
+        where = {s["body"] for s in sites}
+        allowed = {FROM_BYTES, FROM_BYTES + "::{closure#0}", "<stun_types::message::Message<'a> as std::clone::Clone>::clone"}
+        if not where <= allowed:
+            msgs.append("Message is constructed outside from_bytes/clone: %s" % sorted(where - allowed))
+        return (not msgs), ("; ".join(msgs) if msgs else "Message.data is a buffer the header decoder accepted (>= 20 bytes, top two bits of byte 0 clear); the type decoder refuses only shorter buffers or set top bits (decided over byte variables); Message is constructed only by from_bytes/clone")
 
 def strip_field(o):
     """AttributeType(x) newtype / references peeled down to the constant"""
